@@ -42,7 +42,8 @@ ASSUMPTIONS = [
 ]
 REPORT_COUNTERS = ["cases", "crash_points_enumerated", "faults_raised", "scn_first_call", "scn_rebuild", "scn_cache_miss",
                    "scn_next_chain", "scn_invalid_method", "scn_hook_raises", "scn_recursion", "probe_vectors_compared",
-                   "invalid_method_positions", "invalid_method_via_linkback_parent", "invalid_method_swapped_for_valid", "invalid_method_after_first_build", "recursion_faults", "hook_faults", "post_fault_behaviours"]
+                   "invalid_method_positions", "invalid_method_via_linkback_parent", "invalid_method_swapped_for_valid", "invalid_method_after_first_build", "recursion_faults", "hook_faults", "post_fault_behaviours",
+                   "suspended_method_histories", "suspended_method_two_failed_builds", "recursive_calls_of_suspended_method_checked"]
 
 SCENARIOS = ["first_call", "rebuild", "cache_miss", "next_chain", "invalid_method", "hook_raises", "recursion"]
 
@@ -52,7 +53,8 @@ def plan(tier):
     return {"cases": n, "params": {"stride": 7 if tier == "quick" else 1}, "timeout_s": 1800 if tier == "quick" else 14000,
             "min": {"faults_raised": 5_000, "scn_first_call": 8, "scn_rebuild": 8, "scn_cache_miss": 8, "scn_next_chain": 8,
                     "scn_invalid_method": 8, "scn_hook_raises": 8, "scn_recursion": 8, "invalid_method_positions": 30,
-                    "recursion_faults": 100, "hook_faults": 30}}
+                    "recursion_faults": 100, "hook_faults": 30,
+                    "suspended_method_two_failed_builds": 30, "recursive_calls_of_suspended_method_checked": 200}}
 
 
 def gen_case(rng, params, idx):
@@ -144,6 +146,7 @@ def check_case(spec, res):
     else:
         _recursion(spec, env, res, ref, behaviours)
     res.count("post_fault_behaviours", len(behaviours))
+    _running(spec, env, res)
 
 
 # ------------------------------------------------------------------------------------------- injected faults
@@ -367,6 +370,110 @@ def _invalid(spec, env, res, ref, behaviours):
             prog.close()
             return
         prog.close()
+
+
+def _running(spec, env, res):
+    """A method of the last good build is suspended half-way (a generator that yields its recursive calls one by
+    one) while an invalid method arrives, two builds fail, and the offender is removed: each of its recursive calls
+    is a later call like any other - a configuration error or the answer of the complete set, never a verdict from
+    the partially filled table of a failed attempt."""
+    from ovld import Ovld
+    from ..observe import outcome
+    if spec["npos"] != 1:
+        return
+    methods = spec["methods"]
+    kind = spec["badkind"]
+    if kind == "names":      # fails before any method is rewritten: nothing is half-built then
+        kind = "callnext" if len(methods) % 3 else "nosource"
+    linkback = len(methods) % 2 == 0
+    prog = Program(spec, env=env, tag="c18g", build=False)
+    split = len(methods) // 2 if linkback else len(methods)
+    parent = Ovld()
+    for m in methods[:split]:
+        parent.register(prog.make(m), priority=m.get("prio", 0))
+    prog.ov = parent.copy(linkback=True) if linkback else parent
+    for m in methods[split:]:
+        prog.ov.register(prog.make(m), priority=m.get("prio", 0))
+    nsx, f = load_source("def f(a0):\n    for x in a0:\n        yield lambda: recurse(x)\n", prog.ns, tag="c18g", shared=True)
+    prog.files.append(f)
+    walker = nsx["f"]
+    walker.__annotations__ = {"a0": list}
+    prog.ov.register(walker, priority=100)
+    bad = _bad_method(kind, spec, prog.ns, prog.vf)
+    probes = [c for c in spec["probes"] if not c.get("kw") and len(c["pos"]) == 1]
+    if len(probes) < 4:
+        return
+    try:
+        prog.bind()
+        prog.ov.compile()
+        prog.bind()
+        direct = [norm(prog.call(c)) for c in probes]
+        gen_ = prog.fn([prog.args(c)[0][0] for c in probes])
+    except Exception:  # noqa: BLE001
+        prog.close()
+        return
+    if type(gen_).__name__ != "generator":
+        prog.close()
+        return
+    res.ev()
+    res.count("suspended_method_histories")
+
+    def step(i):
+        th = next(gen_)
+        prog.vf.alt = prog.args(probes[i])[2]
+        return norm(outcome(th, prog.vf, prog.names))
+
+    def bad_step(stage, i, got, allowed_error):
+        if got == direct[i] or (allowed_error and _is_config_error(got)):
+            res.count("recursive_calls_of_suspended_method_checked")
+            return False
+        res.violation("suspended-method-resolves-in-partial-table", [kind, stage, got[0]], spec,
+                      observed={"stage": stage, "call": probes[i], "recurse_gave": got, "direct_call_of_complete_set": direct[i],
+                                "linkback": linkback},
+                      acceptable="a configuration error (while the offender is registered) or the answer of the complete set")
+        prog.close()
+        return True
+
+    n = len(probes)
+    i = 0
+    if bad_step("before", i, step(i), False):
+        return
+    i += 1
+    try:
+        parent.register(bad)
+        failed = False
+    except Exception:  # noqa: BLE001
+        failed = True
+    late = None
+    if not linkback:
+        # one more valid method arrives after the offender: in the next attempt it comes after the point of failure
+        late = prog.make(spec["late"])
+        try:
+            prog.ov.register(late, priority=spec["late"].get("prio", 0))
+        except Exception:  # noqa: BLE001
+            pass
+    second = norm(prog.call(probes[0]))         # a second failed attempt
+    if not failed or not _is_config_error(second):
+        prog.close()
+        return
+    res.count("suspended_method_two_failed_builds")
+    while i < n - 2:
+        if bad_step("offender-registered", i, step(i), True):
+            return
+        i += 1
+    try:
+        parent.unregister(bad)
+        if late is not None and late in prog.ov.defns.values():
+            prog.ov.unregister(late)
+    except Exception:  # noqa: BLE001
+        prog.close()
+        return      # reported by the invalid-method pass
+    prog.bind()
+    while i < n:
+        if bad_step("offender-removed", i, step(i), False):
+            return
+        i += 1
+    prog.close()
 
 
 # ------------------------------------------------------------------------------------------- hook raises
